@@ -236,7 +236,7 @@ def Op.req? : Op → Option AccessReq
 def specOp (auth : AuthFn) (s : St) (op : Op) (impl : Out) : Option String :=
   match op, impl with
   | .find _ r, .found c =>
-    if auth (toAuth r) != .ok then some "FindPathConf succeeded for a request the auth manager refuses"
+    if auth (toAuth r) != .ok then some "FindPathConf succeeded for a request that is not admitted"
     else if findConf s.confs r.name r.valid != some c then some "FindPathConf returned a configuration that is not the one in force"
     else none
   | .describe _ r, .described =>
@@ -373,7 +373,7 @@ def justifies (f e : Ev) : Bool :=
     secret (only then may a reader be attached with SkipAuth and no earlier authenticated request). -/
 def evProblem (secretOK : Bool) (prev : List Ev) (e : Ev) : Option String :=
   if !e.isAttach then
-    if e.granted && !e.skip && !e.admitted then some "a request that the permission table refuses was granted" else none
+    if e.granted && !e.skip && !e.admitted then some "a request that the permission table refuses for the client's own address and credentials was granted" else none
   else if (e.kind == .addPub) != e.publish then some "attach with a Publish flag that does not match the method"
   else if !e.skip then
     if e.admitted then none else some "attached with credentials the permission table refuses"
